@@ -120,6 +120,7 @@ pub fn gen_case(ch: &mut Chooser) -> FileCase {
             ("(display 1/0)", false),
             ("(lambda)", false),
             ("(display #|x|# 1)", false),
+            ("(import (scheme write))", false),
             ("(display (car '(1 2))", true),
             ("(display \"never closed)", true),
         ]);
@@ -322,6 +323,17 @@ pub fn judge(c: &FileCase) -> Report {
         s.it.program_directory = Some(pd);
         s.eval(&normalised)
     });
+    let raw_ref = if c.crlf {
+        let raw = text.clone();
+        let pd2 = prog_dir.clone();
+        Some(sut::in_thread(move || {
+            let mut s = Session::bare().unwrap();
+            s.it.program_directory = Some(pd2);
+            s.eval(&raw)
+        }))
+    } else {
+        None
+    };
     let _ = std::fs::remove_dir_all(&dir);
     let stderr = strip_ansi(&r.stderr);
     rep.note = format!("exit {:?}; stdout {:?}; stderr {:?}", r.code, r.stdout.chars().take(200).collect::<String>(), stderr.chars().take(200).collect::<String>());
@@ -372,6 +384,17 @@ pub fn judge(c: &FileCase) -> Report {
                         "diagnostic-line-outside-failing-form",
                         format!("diagnostic {:?}: the failing form (number {}) occupies lines {}-{} of the file", line, i, first, last),
                     );
+                    return rep;
+                }
+            }
+            if matches!(&c.forms[*i], Form::Raw(t) if t.starts_with("(import")) && loc.is_none() {
+                rep.fail("diagnostic-without-location", format!("diagnostic {:?} for an import declaration that comes too late carries no LINE:COL", line));
+                return rep;
+            }
+            if let Some(Outcome::Error(re)) = &raw_ref {
+                // the very same text (CR LF line ends included) through the library interface: same location
+                if re.loc != loc && !truncated_at_end {
+                    rep.fail("diagnostic-location-differs", format!("diagnostic {:?}: location {:?}, the library interface on the same CR LF text reports {:?}", line, loc, re.loc));
                     return rep;
                 }
             }
